@@ -283,23 +283,20 @@ End Compose.
 Section C05Laws.
   Variable conv : kind -> ir -> outcome ir.
   Variable ks : list kind.
-  Let D := chain_safe ks.
-  Let law (k : kind) : Prop :=
-    forall i, D i = true -> exists i', conv k i = Ok i' /\ preserved i i' = true /\ D i' = true.
-  Hypothesis RT_rest : In KRest ks -> law KRest.
-  Hypothesis RT_numpydoc : In KNumpydoc ks -> law KNumpydoc.
-  Hypothesis RT_google : In KGoogle ks -> law KGoogle.
-  Hypothesis RT_class : In KClass ks -> law KClass.
-  Hypothesis RT_function : In KFunction ks -> law KFunction.
-  Hypothesis RT_method : In KMethod ks -> law KMethod.
-  Hypothesis RT_argparse : In KArgparse ks -> law KArgparse.
+  Hypothesis RT_rest : In KRest ks -> kind_law conv (chain_safe ks) KRest.
+  Hypothesis RT_numpydoc : In KNumpydoc ks -> kind_law conv (chain_safe ks) KNumpydoc.
+  Hypothesis RT_google : In KGoogle ks -> kind_law conv (chain_safe ks) KGoogle.
+  Hypothesis RT_class : In KClass ks -> kind_law conv (chain_safe ks) KClass.
+  Hypothesis RT_function : In KFunction ks -> kind_law conv (chain_safe ks) KFunction.
+  Hypothesis RT_method : In KMethod ks -> kind_law conv (chain_safe ks) KMethod.
+  Hypothesis RT_argparse : In KArgparse ks -> kind_law conv (chain_safe ks) KArgparse.
 
   Theorem C05_chain_preserved_lemma : forall cs, incl cs ks ->
       forall i, chain_safe ks i = true ->
       exists i', chain conv cs i = Ok i' /\ preserved i i' = true /\ chain_safe ks i' = true.
   Proof.
-    intros cs Hincl. apply (chain_preserved ir kind preserved conv D preserved_refl preserved_trans).
-    intros k Hk. apply Hincl in Hk. unfold RT.
+    intros cs Hincl. apply (chain_preserved ir kind preserved conv (chain_safe ks) preserved_refl preserved_trans).
+    intros k Hk. apply Hincl in Hk. change (kind_law conv (chain_safe ks) k).
     destruct k; [apply RT_rest | apply RT_numpydoc | apply RT_google | apply RT_class | apply RT_function
                  | apply RT_method | apply RT_argparse]; exact Hk.
   Qed.
@@ -481,4 +478,53 @@ Proof.
   pose proof w_safe_holds as Hb. unfold w_safe_holds_b in Hb.
   destruct (conv_rest w_safe) as [i'|e]; [|discriminate].
   exists i'. split; [reflexivity|]. apply andb_true_iff in Hb. exact Hb.
+Qed.
+
+(* ------------------------------------------------------------------ the region of all seven kinds is inside every region *)
+
+Lemma or_else_none : forall {A} (a b : option A), or_else a b = None <-> a = None /\ b = None.
+Proof.
+  intros A [x|] b; cbn; split; intros H.
+  - discriminate.
+  - destruct H as [H _]. discriminate.
+  - split; [reflexivity | exact H].
+  - destruct H as [_ H]. exact H.
+Qed.
+
+Lemma entry_soft_mono : forall ks seen g, entry_soft all_kinds seen g = None -> entry_soft ks seen g = None.
+Proof.
+  intros ks seen g. unfold entry_soft.
+  change (existsb is_doc_kind all_kinds) with true. change (existsb is_ng_kind all_kinds) with true.
+  change (existsb is_class_kind all_kinds) with true. change (existsb is_fun_kind all_kinds) with true.
+  change (existsb is_argparse_kind all_kinds) with true.
+  destruct (existsb is_doc_kind ks), (existsb is_ng_kind ks), (existsb is_class_kind ks), (existsb is_fun_kind ks),
+    (existsb is_argparse_kind ks);
+    destruct (fld_str (g_doc g)) as [d|]; try destruct (ends_terminal d);
+    destruct (default_shape g);
+    destruct (match fld_str (g_typ g) with Some t => type_shape t | None => ShOther end);
+    destruct seen; cbn; intros H; try discriminate H; reflexivity.
+Qed.
+
+Lemma params_class_mono : forall ks ps seen, params_class all_kinds seen ps = None -> params_class ks seen ps = None.
+Proof.
+  intros ks. induction ps as [|[n g] r IH]; intros seen H; [reflexivity|].
+  cbn [params_class] in *. apply or_else_none in H. destruct H as [Hh H]. apply or_else_none in H. destruct H as [Hs Hr].
+  apply or_else_none. split; [exact Hh|]. apply or_else_none. split; [exact (entry_soft_mono ks seen g Hs)|].
+  exact (IH _ Hr).
+Qed.
+
+Lemma return_class_mono : forall ks i, return_class all_kinds i = None -> return_class ks i = None.
+Proof.
+  intros ks i. unfold return_class. destruct (fld_opt (ir_returns i)) as [g|]; [|reflexivity].
+  change (negb (forallb carries_return all_kinds)) with true. cbn. discriminate.
+Qed.
+
+(* a description every chain over all seven kinds preserves is preserved by every chain over any kinds *)
+Theorem chain_safe_all_kinds : forall ks i, chain_safe all_kinds i = true -> chain_safe ks i = true.
+Proof.
+  intros ks i H. unfold chain_safe in *. apply andb_true_iff in H. destruct H as [Hd Hc]. rewrite Hd. cbn [andb].
+  destruct (c05_class_of all_kinds i) as [k|] eqn:E; [discriminate|].
+  unfold c05_class_of in E. apply or_else_none in E. destruct E as [Es E]. apply or_else_none in E. destruct E as [Er Ep].
+  unfold c05_class_of. rewrite Es. cbn [or_else]. rewrite (return_class_mono ks i Er). cbn [or_else].
+  rewrite (params_class_mono ks _ _ Ep). reflexivity.
 Qed.
